@@ -105,7 +105,8 @@ package modbus
 //@   safety[C08,C07,C19]
 //@   structural[C08]
 //@   modifies[C08] nothing
-//@   modifies streamPos, reads, lastN, lastErr, lastBuf, hookReads, writes, bwCount, bwBuf, ctxErr, faults, flushes
+//@   modifies streamPos, reads, lastN, lastErr, lastBuf, hookReads, writes, bwCount, bwBuf, ctxErr, faults, flushes, timerNs, timers
+//@   ensures[C08.timer] timers <= old(timers) + 1 && (timers > old(timers) ==> timerNs == int(c.readTimeout))
 //@   fresh[C07] res
 //@   ensures[C07,C12,C19] err == nil ==> len(res) == streamPos - old(streamPos) && 1 <= len(res) && len(res) <= 260 && forall k in 0..len(res) :: res[k] == stream[old(streamPos) + k]
 //@   ensures[C07] err == nil ==> len(res) >= expectedLen || (errIs(lastErr, io.EOF) && faults > old(faults))
@@ -141,7 +142,8 @@ package modbus
 //@   lockdiscipline[C14]
 //@   guarded[C14] conn, address, hooks
 //@   modifies[C08] nothing
-//@   modifies streamPos, reads, lastN, lastErr, lastBuf, hookReads, writes, bwCount, bwBuf, ctxErr, faults, flushes, bpCount, bpBuf, parseCount, lastDoRes
+//@   modifies streamPos, reads, lastN, lastErr, lastBuf, hookReads, writes, bwCount, bwBuf, ctxErr, faults, flushes, bpCount, bpBuf, parseCount, lastDoRes, timerNs, timers
+//@   ensures[C08.timer] timers <= old(timers) + 1 && (timers > old(timers) ==> timerNs == int(c.readTimeout))
 //@   ensures[C08] err != nil ==> nilish(resp)
 //@   ensures[C08] req == nil ==> err != nil && writes == old(writes) && reads == old(reads)
 //@   ensures[C08] req != nil && c.conn == nil ==> err != nil && dyntype(err) == *ClientError && err.(*ClientError).Err == ErrClientNotConnected.Err && writes == old(writes) && reads == old(reads)
@@ -257,7 +259,8 @@ package modbus
 //@   safety[C08,C07,C19]
 //@   structural[C08]
 //@   modifies[C08] nothing
-//@   modifies streamPos, reads, lastN, lastErr, lastBuf, hookReads, writes, bwCount, bwBuf, ctxErr, faults, flushes
+//@   modifies streamPos, reads, lastN, lastErr, lastBuf, hookReads, writes, bwCount, bwBuf, ctxErr, faults, flushes, timerNs, timers
+//@   ensures[C08.timer] timers <= old(timers) + 1 && (timers > old(timers) ==> timerNs == int(c.readTimeout))
 //@   fresh[C07] res
 //@   ensures[C07,C12,C19] err == nil ==> len(res) == streamPos - old(streamPos) && 1 <= len(res) && len(res) <= 256 && forall k in 0..len(res) :: res[k] == stream[old(streamPos) + k]
 //@   ensures[C07] err == nil ==> len(res) >= expectedLen
@@ -292,7 +295,8 @@ package modbus
 //@   lockdiscipline[C14]
 //@   guarded[C14] serialPort, hooks
 //@   modifies[C08] nothing
-//@   modifies streamPos, reads, lastN, lastErr, lastBuf, hookReads, writes, bwCount, bwBuf, ctxErr, faults, flushes, bpCount, bpBuf, parseCount, lastDoRes
+//@   modifies streamPos, reads, lastN, lastErr, lastBuf, hookReads, writes, bwCount, bwBuf, ctxErr, faults, flushes, bpCount, bpBuf, parseCount, lastDoRes, timerNs, timers
+//@   ensures[C08.timer] timers <= old(timers) + 1 && (timers > old(timers) ==> timerNs == int(c.readTimeout))
 //@   ensures[C08] err != nil ==> nilish(resp)
 //@   ensures[C08] req == nil ==> err != nil && writes == old(writes) && reads == old(reads)
 //@   ensures[C08] req != nil && c.serialPort == nil ==> err != nil && writes == old(writes) && reads == old(reads)
